@@ -196,3 +196,11 @@ Theorem skip_without_default_refuted :
   schema_rt_ok good_schema = true /\
   read_s good_schema (write_s good_schema (VRec [VList []])) = Some (VRec [VList []]).
 Proof. repeat split; reflexivity. Qed.
+
+(** ** norad's FontInfo *)
+Require Import Norad.Model.FontInfoSchema.
+Theorem font_info_schema_ok : schema_rt_ok font_info_schema = true.
+Proof. vm_compute. reflexivity. Qed.
+Theorem font_info_roundtrip : forall v, wt font_info_schema v = true ->
+  read_s font_info_schema (write_s font_info_schema v) = Some v.
+Proof. exact (schema_roundtrip font_info_schema font_info_schema_ok). Qed.
